@@ -53,25 +53,28 @@ def irdl_init(interp, self_obj, operands=(), result_types=(), properties=None, a
 
         return isinstance(x, (list, tuple, GenList)) or (isinstance(x, Obj) and x.cls.lookup("__iter__")[0] is not None and x.cls.name in ("ArrayAttr",))
 
-    # operands
+    # operands: kept ONLY in the flat list; the declared names are views of it (as in xdsl), computed on access from the
+    # segment table, so that `op.operands[i] = v` is seen through `op.<name>` as well
     odefs = [(n, d) for n, d in defs if d.kind == "operand"]
     entries = seq(operands)
     flat = []
+    segs = {}
     if len(odefs) == len(entries):
         for (n, d), e in zip(odefs, entries):
+            start = len(flat)
             if d.variadic or (d.optional and (e is None or is_seq(e))):
                 vals = [interp.call(ssa_get, [x], {}) for x in seq(e)]
-                F[n] = (vals[0] if vals else None) if d.optional else tuple(vals)
                 flat.extend(vals)
             else:
                 v = interp.call(ssa_get, [e], {})
-                F[n] = v
                 flat.append(v)
+            segs[n] = (start, len(flat) - start, d.variadic, d.optional)
     else:
         # un-named construction (e.g. op without declared operands): keep the flat list only
         for e in entries:
             for x in (seq(e) if is_seq(e) else [e]):
                 flat.append(interp.call(ssa_get, [x], {}))
+    F["_opsegs"] = segs
     F["operands"] = flat
     F["_operands"] = flat
     # results
@@ -119,6 +122,20 @@ def irdl_init(interp, self_obj, operands=(), result_types=(), properties=None, a
     if implicit:
         interp.call(interp.getattr(implicit[-1], "add_op"), [self_obj], {})
     return None
+
+
+def named_operand(interp, obj, name):
+    """value of a declared operand name: a view of the flat operand list"""
+    segs = obj.fields.get("_opsegs") or {}
+    if name not in segs:
+        return None
+    start, n, variadic, optional = segs[name]
+    ops_ = obj.fields["operands"]
+    if variadic:
+        return tuple(ops_[start:start + n])
+    if optional:
+        return ops_[start] if n > 0 else None
+    return ops_[start]
 
 
 def irdl_defs(interp, self_obj):
